@@ -14,6 +14,7 @@ BUILDERS = [
     lambda: conc.build_replayer(),
     lambda: conc.build_driver("queue"),
     lambda: conc.build_driver("adder"),
+    lambda: conc.build_driver("breaker"),
 ]
 
 def replay(prop_id, path):
